@@ -70,7 +70,7 @@ class Frame:
 
 
 class Machine:
-    def __init__(self, mod, nthreads=1, unwind=4, unwind_map=None, verbose=False, max_depth=60):
+    def __init__(self, mod, nthreads=1, unwind=4, unwind_map=None, verbose=False, max_depth=400):
         self.mod = mod; self.ty = mod.ty
         self.mem = {}
         self.allocs = []          # sorted by base (non-heap)
@@ -113,6 +113,8 @@ class Machine:
         self.loop_hot = collections.Counter()
         self.unsupported = []
         self.tolerant = False
+        self.max_recursion = 4
+        self.do_restrict = False   # guard-context simplification of loaded values (enabled in window passes)
         self.hard_loop_cap = 5000
         self.pruner = None; self.prune_above = 1 << 30; self.prune_loops = False; self.sym_loop_cap = 100
         self._layout()
@@ -336,6 +338,12 @@ class Machine:
         return cs
 
     def load(self, p, n, g, what='load'):
+        if self.do_restrict and isinstance(p, Term): p = T.restrict(p, g)
+        v = self._load(p, n, g, what)
+        if self.do_restrict: v = T.restrict(v, g)
+        return v
+
+    def _load(self, p, n, g, what='load'):
         cs = self.cands(p, g, what)
         if len(cs) == 1 and cs[0][1] is True:
             if self.check(cs[0][0], n, g, what) is None: return 0
@@ -352,6 +360,9 @@ class Machine:
 
     def store(self, p, n, val, g, what='store'):
         if g is False: return
+        if self.do_restrict:
+            if isinstance(p, Term): p = T.restrict(p, g)
+            if isinstance(val, Term): val = T.restrict(val, g)
         cs = self.cands(p, g, what)
         for a, c in cs:
             gc = And(g, c)
@@ -648,7 +659,7 @@ class Machine:
         if f is None:
             return self.builtin(name, args, g, None)
         if self.depth > self.max_depth: raise Unsupported('call depth exceeded at ' + name)
-        if self.callstack.count(name) >= 4:
+        if self.callstack.count(name) >= self.max_recursion:
             self.unwound.append((g if self.win is None else And(g, self.upto(tuple(self.keypath))), 'recursion ' + name)); return False, self.zero_of(f.ret) if f.ret.k != 'void' else None, False
         self.funcs_encoded[name] += 1
         self.depth += 1; self.callstack.append(name)
@@ -956,7 +967,7 @@ class Machine:
         for n, (ag, fn, obj) in enumerate(reversed(lst)):
             gg = And(g, ag)
             if gg is False: continue
-            self.keypath.append(('x', n))
+            self.keypath.append(('x', t.tid, n))     # thread id: exit handlers of different threads must not share keys
             for a, c in self.cands(fn, gg, 'atexit'):
                 nm = self.addr_fn.get(a)
                 if nm is None: continue
